@@ -69,6 +69,23 @@ GRAMMARS = {
     "typed_tok": "start = kw num $ ;\nkw::Kw = 'begin' | 'end' ;\nnum::Num = /\\d+/ ;\n",
     # names may be upper case: whether 'IF' is reserved depends on the case rules of the call (and of nothing else)
     "kw_c": "@@keyword :: if then\nstart = name $ ;\n@name\nname = /[a-zA-Z]+/ ;\n",
+    # comments: what is skipped between tokens is decided by directives / per-call settings (patterns compiled and kept somewhere)
+    "cmt_a": "@@comments :: /\\(\\*((?:.|\\n)*?)\\*\\)/\n@@eol_comments :: /#([^\\n]*?)$/\nstart = num num $ ;\nnum = /\\d+/ ;\n",
+    "cmt_b": "@@comments :: /\\{[^}]*\\}/\n@@eol_comments :: /;[^\\n]*/\nstart = num num $ ;\nnum = /\\d+/ ;\n",
+    "cmt_c": "start = num num $ ;\nnum = /\\d+/ ;\n",
+    # repetition, option, separators, named lists (per-position state: closures and their memo entries)
+    "clo": "start = {item}* $ ;\nitem = /\\d+/ | word ;\nword = /[a-z]+/ ;\n",
+    "clo_b": "start = {item}* $ ;\nitem = /\\d+/ ;\n",
+    "opt": "start = ['-'] num ['!'] $ ;\nnum = /\\d+/ ;\n",
+    "join": "start = ','.{num}+ $ ;\nnum = /\\d+/ ;\n",
+    "nlist": "start = xs+:num {',' xs+:num}* $ ;\nnum = /\\d+/ ;\n",
+    # rule decorators, inheritance, keyword parameters
+    "inh": "start = sub $ ;\nbase = 'x' ;\nsub < base = 'y' ;\n",
+    "nomemo": "start = a $ ;\n@nomemo\na = 'x' | 'y' ;\n",
+    "kwparams": "start = num $ ;\nnum(Number, base=10) = /\\d+/ ;\n",
+    "kwparams_b": "start = num $ ;\nnum(Number, base=16) = /\\d+/ ;\n",
+    # line ends as tokens
+    "eol": "@@whitespace :: /[ \\t]+/\nstart = w '\\n' w $ ;\nw = /[a-z]+/ ;\n",
     # many distinct patterns: fills (and overflows) whatever process-wide cache of compiled patterns there is
     "manypat": "start = " + " | ".join(f"p{i}" for i in range(72)) + " ;\n" + "".join(f"p{i} = /x{i}y/ ;\n" for i in range(72)),
 }
@@ -106,10 +123,23 @@ INPUTS = {
     "lrec_b": ["a", "a+b", "(a+b)+c", "1"],
     "typed_tok": ["begin 42", "\n\n   begin 7", "end 1", "  end 1", "begin"],
     "manypat": ["zzz", "x5y", "x71y"],
+    "cmt_a": ["1 (* c *) 2", "1 {c} 2", "1 # x\n2", "1 ; x\n2", "1 2", "(* a *) 1 2", "1 (* 2"],
+    "cmt_b": ["1 (* c *) 2", "1 {c} 2", "1 ; x\n2", "1 2", "{a}{b} 1 2"],
+    "cmt_c": ["1 (* c *) 2", "1 {c} 2", "1 2", "1 # x\n2"],
+    "clo": ["1 a 2", "", "1", "a", "1 !"],
+    "clo_b": ["1 2", "", "1", "a"],
+    "opt": ["-1!", "1", "-", "-1", "1!"],
+    "join": ["1,2,3", "1,", "1", ""],
+    "nlist": ["1,2,3", "1", "1,2"],
+    "inh": ["x y", "y", "x"],
+    "nomemo": ["x", "y", "z"],
+    "kwparams": ["1", "a"],
+    "kwparams_b": ["1", "a"],
+    "eol": ["a\nb", "a b", "a \n b", "a\n\nb"],
 }
 FAMILIES = [["typed", "typed_b", "typed_c", "params", "typed_d", "typed_tok"], ["kw", "icase", "kw_b", "kw_c"], ["ref", "two", "choice", "ws", "choice_b"], ["lrec", "cut", "over", "named", "const", "lrec_b"],
-            ["nums", "nums_b"], ["tok_a", "tok_b", "pat_a", "pat_b"], ["cn_a", "cn_b", "cn_c", "cn_d", "const"]]
-FAMILY_RULES = {"nums": ["start", "value", "integer", "real", "flag"], "tok_a": ["start"], "typed": ["start", "num", "word", "nosuch"], "kw": ["start", "name", "stmt"], "ref": ["start", "num", "word", "first", "second", "x", "nosuch"],
+            ["nums", "nums_b"], ["cmt_a", "cmt_b", "cmt_c"], ["clo", "clo_b", "opt", "join", "nlist"], ["inh", "nomemo", "kwparams", "kwparams_b", "params"], ["eol", "ws"], ["tok_a", "tok_b", "pat_a", "pat_b"], ["cn_a", "cn_b", "cn_c", "cn_d", "const"]]
+FAMILY_RULES = {"cmt_a": ["start", "num"], "clo": ["start", "item", "word", "num"], "inh": ["start", "base", "sub", "a", "num"], "eol": ["start", "w", "word"], "nums": ["start", "value", "integer", "real", "flag"], "tok_a": ["start"], "typed": ["start", "num", "word", "nosuch"], "kw": ["start", "name", "stmt"], "ref": ["start", "num", "word", "first", "second", "x", "nosuch"],
                 "lrec": ["start", "e", "n", "a", "b", "num"]}
 
 
@@ -128,8 +158,9 @@ SETTINGS_POOL = [
     {"whitespace": ""}, {"whitespace": "[ ]+"}, {"left_recursion": False}, {"memoization": False}, {"trace": False},
     {"ignorecase": True, "parseinfo": True}, {"namechars": "_"}, {"trace": True, "colorize": False}, {"memoization": False, "parseinfo": True},
     {"source": "input.txt"}, {"source": "input.txt", "ignorecase": True}, {"source": "input.txt", "whitespace": ""}, {"source": "other.txt"},
+    {"comments": "\\{[^}]*\\}"}, {"eol_comments": ";[^\\n]*"}, {"comments": "\\(\\*((?:.|\\n)*?)\\*\\)", "eol_comments": "#([^\\n]*?)$"}, {"nameguard": False, "namechars": "-"},
 ]
-CALL_SETTINGS = [{"parseinfo": True}, {"ignorecase": True}, {"ignorecase": True}, {"nameguard": False}, {"whitespace": ""}, {"source": "input.txt"}, {"keywords": ["x", "iff"]},
+CALL_SETTINGS = [{"comments": "\\{[^}]*\\}"}, {"eol_comments": ";[^\\n]*"}, {"memoization": False}, {"left_recursion": False}, {"parseinfo": True}, {"ignorecase": True}, {"ignorecase": True}, {"nameguard": False}, {"whitespace": ""}, {"source": "input.txt"}, {"keywords": ["x", "iff"]},
                  {"source": "input.txt", "ignorecase": True}, {"source": "input.txt", "whitespace": ""}, {"source": "input.txt", "nameguard": False}]
 NAMES = [None, None, "A", "B", "Test"]
 SEM_HANDLES = {"S1": "tag", "S2": "eq", "S3": "num", "S4": "fb"}      # a shared semantics object is always of the same kind
@@ -1087,7 +1118,7 @@ def gen_call(rng, handles, models_only=False, allow_fault=True, focus=None):
     return op
 
 
-GOOD_INPUT = {"choice_b": "0x1f", "lrec_b": "a+b", "typed_tok": "begin 42", "kw_c": "IF", "manypat": "x71y", "cn_a": "7", "cn_b": "x", "cn_c": "x", "cn_d": "7 ab", "nums": "1", "nums_b": "1", "tok_a": "end if", "tok_b": "end  if", "pat_a": "12 34", "pat_b": "12  34", "ref": "12 ab", "choice": "a", "typed": "1", "typed_b": "1", "typed_c": "1 a", "typed_d": "ab", "params": "1", "kw": "x", "kw_b": "x",
+GOOD_INPUT = {"cmt_a": "1 (* c *) 2", "cmt_b": "1 {c} 2", "cmt_c": "1 2", "clo": "1", "clo_b": "1", "opt": "-1!", "join": "1", "nlist": "1,2", "inh": "x y", "nomemo": "x", "kwparams": "1", "kwparams_b": "1", "eol": "a\nb", "choice_b": "0x1f", "lrec_b": "a+b", "typed_tok": "begin 42", "kw_c": "IF", "manypat": "x71y", "cn_a": "7", "cn_b": "x", "cn_c": "x", "cn_d": "7 ab", "nums": "1", "nums_b": "1", "tok_a": "end if", "tok_b": "end  if", "pat_a": "12 34", "pat_b": "12  34", "ref": "12 ab", "choice": "a", "typed": "1", "typed_b": "1", "typed_c": "1 a", "typed_d": "ab", "params": "1", "kw": "x", "kw_b": "x",
               "icase": "x", "ws": "ab cd", "const": "a", "named": "1", "over": "(1)", "lrec": "1", "cut": "x y", "two": "ab"}
 
 
